@@ -75,6 +75,10 @@ def gridLen (size stride : Nat) : Nat := (size + stride - 1) / stride
 /-- target shape of `apply_sizematcher` -/
 def matchedShape (H W : Nat) (maxH maxW : Option Nat) : Nat × Nat := (maxH.getD H, maxW.getD W)
 
+/-- `find_global_peaks_rough`: the flat argmax index of an `h×w` map is unravelled to `(x, y) =
+(idx % w, idx / w)` — on integers (HEAD: int64 tensors), exact for every map size -/
+def unravel (w idx : Nat) : Nat × Nat := (idx % w, idx / w)
+
 inductive Provider | labels | video
 deriving DecidableEq, Repr
 
